@@ -1286,7 +1286,9 @@ def matrix_programs_c18():
             if any(b["op"] != "call" or b.get("out") for b in body):
                 continue
             steps = [mk(slot, rec)] + [copy.deepcopy(b) for b in body] + [{"op": "drop", "slot": slot}]
-            steps += [dict(mk("T2", reseed(rec, 1000)), reuse_id_of=slot), mk("T2b", reseed(rec, 1000))]
+            # (a fresh class per build allocates a different amount each time: the address cannot be steered there)
+            t2 = mk("T2", reseed(rec, 1000)) if kname == "usercls_fresh" else dict(mk("T2", reseed(rec, 1000)), reuse_id_of=slot)
+            steps += [t2, mk("T2b", reseed(rec, 1000))]
             steps += [retarget(b, slot, "T2") for b in body] + [retarget(b, slot, "T2b") for b in body]
             for j, s in enumerate(steps):
                 s["id"] = j
@@ -1308,7 +1310,8 @@ def matrix_programs_c18():
             loop = []
             for i in range(4):
                 one = [mk("Tq%d" % i, plain(kind, i))] + [retarget(b, "Tq", "Tq%d" % i) for b in body]
-                loop += one + [{"op": "drop", "slot": "Tq%d" % i}]
+                # in the loop the simulator decides the address: the one just freed (sim/addr.py)
+                loop += ([dict(one[0], reuse_id_of="Tq%d" % (i - 1))] if i else one[:1]) + one[1:] + [{"op": "drop", "slot": "Tq%d" % i}]
                 single = copy.deepcopy(one)
                 for j, s in enumerate(single):
                     s["id"] = j
